@@ -60,43 +60,175 @@ func indexIn(b *ssa.BasicBlock, i ssa.Instruction) int {
 // reach computes the instructions reachable from the given start positions.
 // A start (b,k) means execution is about to execute b.Instrs[k].
 // An instruction in cut.Instrs is marked reached but not continued through.
+//
+// With TransparentOn the walk enters a transparent helper at its call and
+// comes back behind the call at the helper's returns (exact: the helper has
+// one call site). A constant bool/nil result of the return taken is remembered
+// until the end of the caller's block, so that `if !helper() { return }`
+// continues on the matching branch only.
 func reach(starts []pos2, cut *Cut) InstrSet {
 	seen := InstrSet{}
-	var stack []pos2
-	stack = append(stack, starts...)
+	type key struct {
+		in  ssa.Instruction
+		tag *ssa.Return
+	}
+	visited := map[key]bool{}
+	type item struct {
+		p   pos2
+		tag *ssa.Return
+	}
+	var stack []item
+	for _, s := range starts {
+		stack = append(stack, item{s, nil})
+	}
 	for len(stack) > 0 {
-		p := stack[len(stack)-1]
+		it := stack[len(stack)-1]
 		stack = stack[:len(stack)-1]
-		b, k := p.b, p.k
+		b, k, tag := it.p.b, it.p.k, it.tag
+		stop := false
 		for ; k < len(b.Instrs); k++ {
 			in := b.Instrs[k]
-			if seen[in] {
-				k = -1
+			if visited[key{in, tag}] {
+				stop = true
 				break
 			}
+			visited[key{in, tag}] = true
 			seen[in] = true
 			if cut != nil && cut.Instrs[in] {
-				k = -1
+				stop = true
+				break
+			}
+			if cal := transparentCallee(in); cal != nil {
+				stack = append(stack, item{pos2{cal.Blocks[0], 0}, nil})
+				stop = true
+				break
+			}
+			if ret, isRet := in.(*ssa.Return); isRet {
+				if call := transparentOf(ret.Parent()); call != nil {
+					cb := call.Block()
+					stack = append(stack, item{pos2{cb, indexIn(cb, call) + 1}, ret})
+				}
+				stop = true
 				break
 			}
 		}
-		if k == -1 {
+		if stop {
 			continue
 		}
 		// fell off the end of the block: follow successors
+		only := -1
+		if tag != nil {
+			only = threadedSucc(b, tag)
+		}
 		for idx, s := range b.Succs {
+			if only >= 0 && idx != only {
+				continue
+			}
 			if cut != nil && cut.Edges[Edge{b, idx}] {
 				continue
 			}
 			if deadConstEdge(b, idx) {
 				continue
 			}
-			if len(s.Instrs) > 0 && !seen[s.Instrs[0]] {
-				stack = append(stack, pos2{s, 0})
+			if len(s.Instrs) > 0 {
+				stack = append(stack, item{pos2{s, 0}, nil})
 			}
 		}
 	}
 	return seen
+}
+
+// threadedSucc: block b ends in an If whose condition is decided by the
+// constant result of the helper return `ret` (the helper's call is in b).
+// Returns the index of the only successor to follow, or -1.
+func threadedSucc(b *ssa.BasicBlock, ret *ssa.Return) int {
+	iff, ok := b.Instrs[len(b.Instrs)-1].(*ssa.If)
+	if !ok {
+		return -1
+	}
+	call := transparentOf(ret.Parent())
+	if call == nil || call.Block() != b {
+		return -1
+	}
+	// value of result k of the call along this return: "true"/"false"/"nil"/"nonnil"/""
+	resultOf := func(v ssa.Value) string {
+		k := -1
+		switch x := v.(type) {
+		case *ssa.Call:
+			if x == call && len(ret.Results) == 1 {
+				k = 0
+			}
+		case *ssa.Extract:
+			if x.Tuple == ssa.Value(call) {
+				k = x.Index
+			}
+		}
+		if k < 0 || k >= len(ret.Results) {
+			return ""
+		}
+		r := ret.Results[k]
+		if c, isC := r.(*ssa.Const); isC {
+			if c.IsNil() {
+				return "nil"
+			}
+			if c.Value != nil && (c.Value.String() == "true" || c.Value.String() == "false") {
+				return c.Value.String()
+			}
+			return ""
+		}
+		if ProvablyNonNil(r, func(ssa.Value) bool { return false }) {
+			return "nonnil"
+		}
+		return ""
+	}
+	var eval func(v ssa.Value) string
+	eval = func(v ssa.Value) string {
+		switch x := v.(type) {
+		case *ssa.UnOp:
+			if x.Op == token.NOT {
+				switch eval(x.X) {
+				case "true":
+					return "false"
+				case "false":
+					return "true"
+				}
+			}
+			return ""
+		case *ssa.BinOp:
+			if x.Op != token.EQL && x.Op != token.NEQ {
+				return ""
+			}
+			a, bb := x.X, x.Y
+			if IsNilConst(a) {
+				a, bb = bb, a
+			}
+			if !IsNilConst(bb) {
+				return ""
+			}
+			r := resultOf(a)
+			if r != "nil" && r != "nonnil" {
+				return ""
+			}
+			isNil := r == "nil"
+			if (x.Op == token.EQL) == isNil {
+				return "true"
+			}
+			return "false"
+		default:
+			r := resultOf(v)
+			if r == "true" || r == "false" {
+				return r
+			}
+		}
+		return ""
+	}
+	switch eval(iff.Cond) {
+	case "true":
+		return 0
+	case "false":
+		return 1
+	}
+	return -1
 }
 
 type pos2 struct {
@@ -182,10 +314,52 @@ func Returns(fn *ssa.Function) []*ssa.Return {
 			continue
 		}
 		if r, ok := b.Instrs[len(b.Instrs)-1].(*ssa.Return); ok {
+			if cal := tailCallee(r); cal != nil {
+				// `return helper(…)` with a helper that is looked through: the helper's returns are the function's
+				out = append(out, Returns(cal)...)
+				continue
+			}
 			out = append(out, r)
 		}
 	}
 	return out
+}
+
+// tailCallee: r returns exactly the results of a transparent helper called
+// immediately before it.
+func tailCallee(r *ssa.Return) *ssa.Function {
+	if !TransparentOn || len(r.Results) == 0 {
+		return nil
+	}
+	var call *ssa.Call
+	for i, v := range r.Results {
+		var c2 *ssa.Call
+		switch x := v.(type) {
+		case *ssa.Call:
+			if len(r.Results) == 1 {
+				c2 = x
+			}
+		case *ssa.Extract:
+			if cc, ok := x.Tuple.(*ssa.Call); ok && x.Index == i {
+				c2 = cc
+			}
+		}
+		if c2 == nil || (call != nil && c2 != call) {
+			return nil
+		}
+		call = c2
+	}
+	if call == nil || call.Block() != r.Block() {
+		return nil
+	}
+	// nothing but the extracts between the call and the return
+	b := r.Block()
+	for k := indexIn(b, call) + 1; k < len(b.Instrs)-1; k++ {
+		if _, isE := b.Instrs[k].(*ssa.Extract); !isE {
+			return nil
+		}
+	}
+	return transparentCallee(call)
 }
 
 // Exits lists the instructions that end a normal execution of fn: returns and
@@ -205,12 +379,14 @@ func Panics(fn *ssa.Function) []*ssa.Panic {
 
 // AllInstrs iterates over all instructions of fn in block order.
 func AllInstrs(fn *ssa.Function, f func(ssa.Instruction)) {
-	for _, b := range fn.Blocks {
-		if b == fn.Recover {
-			continue
-		}
-		for _, in := range b.Instrs {
-			f(in)
+	for _, g := range regionFuncs(fn) {
+		for _, b := range g.Blocks {
+			if b == g.Recover {
+				continue
+			}
+			for _, in := range b.Instrs {
+				f(in)
+			}
 		}
 	}
 }
@@ -229,7 +405,11 @@ type Test struct {
 // Tests decomposes every If of fn.
 func Tests(fn *ssa.Function) []Test {
 	var out []Test
-	for _, b := range fn.Blocks {
+	var blocks []*ssa.BasicBlock
+	for _, g := range regionFuncs(fn) {
+		blocks = append(blocks, g.Blocks...)
+	}
+	for _, b := range blocks {
 		if len(b.Instrs) == 0 {
 			continue
 		}
